@@ -99,6 +99,10 @@ class Bounds:
     def __init__(self, lower: ndarray, upper: ndarray, error_source="Bounds"):
         self.lower = lower if isinstance(lower, ndarray) else array(lower).squeeze()
         self.upper = upper if isinstance(upper, ndarray) else array(upper).squeeze()
+        # (limits held in an integer or narrow floating-point type would have their
+        # width, and every fold, computed in that type: int8 limits [-100, 100] have width -56)
+        self.lower = self.lower.astype(float)
+        self.upper = self.upper.astype(float)
 
         if self.lower.ndim > 1 or self.upper.ndim > 1:
             raise ValueError(
